@@ -110,4 +110,11 @@ def check(ctx: Ctx) -> str:
     ctx.floor("stub definitions emitted by pull_dependencies", ndef, 1)
     lin = [c for c in astq.calls(loop) if astq.callee(c).endswith("get_corresponding_lineno")]
     ctx.check(len(lin) == 1 and ast.unparse(lin[0].args[0]) == "tb.tb_lineno", "rewrite:lineno", "debug:rewrite_traceback_stack", "line translation", "the fake frame must carry template.get_corresponding_lineno(tb.tb_lineno)", rw.loc())
+    # a precompiled module is the generated source, byte for byte: its debug_info maps *its*
+    # line numbers - text put in front of the code shifts every mapped line
+    ct = repo.func("environment:Environment.compile_templates")
+    gen_ = [a for a in ast.walk(ct.node) if isinstance(a, ast.Assign) and isinstance(a.value, ast.Call) and astq.callee(a.value) == "self.compile" and isinstance(a.targets[0], ast.Name)]
+    wf_ = [c for c in astq.calls(ct.node) if astq.callee(c) == "write_file" and len(c.args) == 2]
+    ctx.check(len(gen_) == 1 and bool(wf_) and all(ast.unparse(c.args[1]) == gen_[0].targets[0].id for c in wf_), "compile_templates:verbatim", "environment:Environment.compile_templates", f"module text written: {[ast.unparse(c.args[1])[:50] for c in wf_]}",
+              f"compile_templates must write exactly what self.compile(...) returned ({[ast.unparse(c.args[1]) for c in wf_]}): a header or any other edit of the module text moves the code off the line numbers recorded in its debug_info, and errors in precompiled templates are reported one line off", ct.loc())
     return __doc__ or ""
